@@ -39,6 +39,9 @@ fn run_case(family: &str, args: &[u128]) -> Vec<u128> {
         "serde" => serde_fam::serde_case(args),
         "sched" => sched::sched(args),
         "fault" => fault::fault(args),
+        "bao" => proto::bao_case(args),
+        "copy" => proto::copy_case(args),
+        "grow" => proto::grow_case(args),
         _ => panic!("unknown family {family}"),
     }
 }
